@@ -150,10 +150,11 @@ def handleDist (inp out : List String) : String :=
       let same := matchesModel ab mab && matchesModel ba mba && matchesModel a'b ma'b &&
         matchesModel cab mab && matchesModel cba mba
       let prop :=
+        let panicClause := if hasEmptyMember a || hasEmptyMember b then "FAIL:panic-on-empty-member" else "FAIL:panic"
         match ab with
-        | none => "FAIL:panic"
+        | none => panicClause
         | some (.fin v) =>
-          if ba.isNone || a'b.isNone || cab.isNone || cba.isNone then "FAIL:panic"
+          if ba.isNone || a'b.isNone || cab.isNone || cba.isNone then panicClause
           else if v == 0 && d2 != 0 then
             (if hasEmptyMember a || hasEmptyMember b then "FAIL:zero-for-empty-member" else "FAIL:zero-but-disjoint")
           else if v != 0 && d2 == 0 then "FAIL:nonzero-but-intersecting"
